@@ -186,6 +186,9 @@ def dry_runs():
     yield 'S3_run_exitstatus', dict(code=5, sig=1, signaled=False, withexit=True, tneg=False, exit_at=0)
 
 
+PROBES = ['lifecycle']      # representation probes (harness/probes.py) this harness depends on
+
+
 MANIFEST_ENTRY = {
     'level_text': 'Bounded symbolic verification through the real pexpect.spawn isalive/wait/close/terminate/kill AND '
                   'the real ptyprocess isalive/wait/close/terminate over a symbolic process world: the wait status '
